@@ -409,7 +409,10 @@ pub fn run(s: &mut Sink) {
         // fixed VM: data_end - data
         let pd = isa::enc(&[isa::ldxdw(0, 1, 0x40), isa::ldxdw(2, 1, 0x50), isa::sub64r(2, 0), isa::mov64r(0, 2), isa::EXIT]);
         let ph = isa::enc(&[isa::mov64i(1, 1), isa::mov64i(2, 2), isa::mov64i(3, 3), isa::mov64i(4, 4), isa::mov64i(5, 5), isa::call_helper(1), isa::EXIT]);
-        let progs = vec![hex(&pa), hex(&pb), hex(&pm), hex(&pd), hex(&ph)];
+        // a program every verifier-in-force here refuses (no final exit): a set_program that fails
+        // must leave the VM - compiled code included - as it was, in both builds
+        let px = isa::enc(&[isa::mov64i(0, 0x33), isa::mov64i(0, 0x44)]);
+        let progs = vec![hex(&pa), hex(&pb), hex(&pm), hex(&pd), hex(&ph), hex(&px)];
         let pkt = hex(&[0x41u8, 2, 3, 4, 5, 6, 7, 8, 9, 10, 11, 12]);
         let mut cases = vec![];
         let mut g = 5000u64;
@@ -427,6 +430,7 @@ pub fn run(s: &mut Sink) {
             for p in &ps {
                 alphabet.push(format!("set_program:{p}"));
             }
+            alphabet.push("set_program:5".into());
             let mut inits: Vec<String> = vec!["new:none".into()];
             for p in &ps {
                 inits.push(format!("new:{p}"));
